@@ -266,14 +266,33 @@ theorem takeUntil_prefix {α : Type} (need : Int) (l acc : List α) :
     · obtain ⟨k, hk⟩ := ih (acc ++ [x])
       refine ⟨k + 1, ?_⟩; rw [if_neg h, hk]; simp
 
+theorem takeUntil_ne_nil {α : Type} (need : Int) (l acc : List α) (h : l ≠ [] ∨ acc ≠ []) :
+    takeUntil need l acc ≠ [] := by
+  induction l generalizing acc with
+  | nil => rcases h with h | h; exact absurd rfl h; simpa [takeUntil] using h
+  | cons x t ih =>
+    simp only [takeUntil]
+    by_cases hc : ((acc ++ [x]).length : Int) ≥ need
+    · rw [if_pos hc]; simp
+    · rw [if_neg hc]; exact ih _ (Or.inr (by simp))
+
+theorem assocSet_ne_nil {β : Type} (k : Nat) (v : β) (l : List (Nat × β)) : assocSet k v l ≠ [] := by
+  cases l with
+  | nil => simp [assocSet]
+  | cons q t =>
+    obtain ⟨k', v'⟩ := q
+    simp only [assocSet]
+    by_cases e : k' = k <;> simp [e]
+
 theorem rvinv_nil (h : Nat) : RVInv recover appr step parentHash P h ([] : RoundVotes σ) :=
   ⟨(by intro p hp; cases hp), (by simp)⟩
 
 theorem visit_spec (hperm : ∀ l, (iterOrder l).Perm l) (bb : ByBlock σ) (v : Vote σ) (hPv : P v)
     (hbb : BBInv recover appr step parentHash P bb) :
     BBInv recover appr step parentHash P (visit recover appr iterOrder step parentHash need bb v).1 ∧
-    ∀ h list, (visit recover appr iterOrder step parentHash need bb v).2 = some (h, list) →
-      Emitted recover appr step parentHash need P h list := by
+    (∀ h list, (visit recover appr iterOrder step parentHash need bb v).2 = .found h list →
+      Emitted recover appr step parentHash need P h list ∧ list ≠ []) ∧
+    ((visit recover appr iterOrder step parentHash need bb v).2 = .panic → need < 0 ∧ ∃ a, appr a = true) := by
   -- facts about the looked-up map
   have hrv : RVInv recover appr step parentHash P v.voted ((bb.lookup v.voted).getD []) := by
     cases hl : bb.lookup v.voted with
@@ -290,16 +309,16 @@ theorem visit_spec (hperm : ∀ l, (iterOrder l).Perm l) (bb : ByBlock σ) (v : 
       · exact hbb p hp
   simp only [visit]
   by_cases h1 : (((bb.lookup v.voted).getD []).lookup (voterAddr recover v)).isSome = true
-  · rw [if_pos h1]; exact ⟨hbb1, by intro h list hh; cases hh⟩
+  · rw [if_pos h1]; exact ⟨hbb1, (by intro h list hh; cases hh), (by intro hh; cases hh)⟩
   · rw [if_neg h1]
     by_cases h2 : v.parent ≠ parentHash
-    · rw [if_pos h2]; exact ⟨hbb1, by intro h list hh; cases hh⟩
+    · rw [if_pos h2]; exact ⟨hbb1, (by intro h list hh; cases hh), (by intro hh; cases hh)⟩
     · rw [if_neg h2]
       by_cases h3 : v.step ≠ step
-      · rw [if_pos h3]; exact ⟨hbb1, by intro h list hh; cases hh⟩
+      · rw [if_pos h3]; exact ⟨hbb1, (by intro h list hh; cases hh), (by intro hh; cases hh)⟩
       · rw [if_neg h3]
         by_cases h4 : appr (voterAddr recover v) = false
-        · rw [if_pos h4]; exact ⟨hbb1, by intro h list hh; cases hh⟩
+        · rw [if_pos h4]; exact ⟨hbb1, (by intro h list hh; cases hh), (by intro hh; cases hh)⟩
         · rw [if_neg h4]
           have hnone : ((bb.lookup v.voted).getD []).lookup (voterAddr recover v) = none := by
             cases hx : ((bb.lookup v.voted).getD []).lookup (voterAddr recover v) with
@@ -334,12 +353,24 @@ theorem visit_spec (hperm : ∀ l, (iterOrder l).Perm l) (bb : ByBlock σ) (v : 
             · exact hbb1 p hp
           have hem : ∀ list, list = takeUntil need
                 ((iterOrder (assocSet (voterAddr recover v) v ((bb.lookup v.voted).getD []))).map (·.2)) [] →
-              need ≤ (list.length : Int) → Emitted recover appr step parentHash need P v.voted list := by
+              need ≤ (list.length : Int) → Emitted recover appr step parentHash need P v.voted list ∧ list ≠ [] := by
             intro list hl hlen
+            have hp := hperm (assocSet (voterAddr recover v) v ((bb.lookup v.voted).getD []))
+            have hne : list ≠ [] := by
+              rw [hl]
+              apply takeUntil_ne_nil
+              left
+              intro hnil
+              have hlen' := hp.length_eq
+              have h0 : (iterOrder (assocSet (voterAddr recover v) v ((bb.lookup v.voted).getD []))).length = 0 := by
+                have := congrArg List.length hnil
+                simpa using this
+              rw [h0] at hlen'
+              exact assocSet_ne_nil _ _ _ (List.length_eq_zero_iff.mp hlen'.symm)
+            refine ⟨?_, hne⟩
             obtain ⟨k, hk⟩ := takeUntil_prefix need
               ((iterOrder (assocSet (voterAddr recover v) v ((bb.lookup v.voted).getD []))).map (·.2)) []
             rw [hk, List.nil_append] at hl
-            have hp := hperm (assocSet (voterAddr recover v) v ((bb.lookup v.voted).getD []))
             have hsub : list.Sublist ((iterOrder (assocSet (voterAddr recover v) v
                 ((bb.lookup v.voted).getD []))).map (·.2)) := by rw [hl]; exact List.take_sublist _ _
             refine ⟨?_, ?_, hlen⟩
@@ -365,26 +396,31 @@ theorem visit_spec (hperm : ∀ l, (iterOrder l).Perm l) (bb : ByBlock σ) (v : 
               exact ((hp.map (·.1)).nodup_iff).mpr hrv'.2
           by_cases h5 : ((assocSet (voterAddr recover v) v ((bb.lookup v.voted).getD [])).length : Int) ≥ need
           · rw [if_pos h5]
-            by_cases h6 : ((takeUntil need ((iterOrder (assocSet (voterAddr recover v) v
-                ((bb.lookup v.voted).getD []))).map (·.2)) []).length : Int) ≥ need
-            · rw [if_pos h6]
-              refine ⟨hbb2, ?_⟩
-              intro h list hh
-              simp only [Option.some.injEq, Prod.mk.injEq] at hh
-              obtain ⟨rfl, rfl⟩ := hh
-              exact hem _ rfl h6
-            · rw [if_neg h6]
-              exact ⟨hbb2, by intro h list hh; cases hh⟩
+            by_cases hneg : need < 0
+            · rw [if_pos hneg]
+              exact ⟨hbb2, (by intro h list hh; cases hh), fun _ => ⟨hneg, voterAddr recover v, by simpa using h4⟩⟩
+            · rw [if_neg hneg]
+              by_cases h6 : ((takeUntil need ((iterOrder (assocSet (voterAddr recover v) v
+                  ((bb.lookup v.voted).getD []))).map (·.2)) []).length : Int) ≥ need
+              · rw [if_pos h6]
+                refine ⟨hbb2, ?_, (by intro hh; cases hh)⟩
+                intro h list hh
+                simp only [CountRes.found.injEq] at hh
+                obtain ⟨rfl, rfl⟩ := hh
+                exact hem _ rfl h6
+              · rw [if_neg h6]
+                exact ⟨hbb2, (by intro h list hh; cases hh), (by intro hh; cases hh)⟩
           · rw [if_neg h5]
-            exact ⟨hbb2, by intro h list hh; cases hh⟩
+            exact ⟨hbb2, (by intro h list hh; cases hh), (by intro hh; cases hh)⟩
 
 theorem poll_spec (hperm : ∀ l, (iterOrder l).Perm l) (enum : List (Vote σ)) (hP : ∀ v ∈ enum, P v)
     (bb : ByBlock σ) (hbb : BBInv recover appr step parentHash P bb) :
     BBInv recover appr step parentHash P (poll recover appr iterOrder step parentHash need bb enum).1 ∧
-    ∀ h list, (poll recover appr iterOrder step parentHash need bb enum).2 = some (h, list) →
-      Emitted recover appr step parentHash need P h list := by
+    (∀ h list, (poll recover appr iterOrder step parentHash need bb enum).2 = .found h list →
+      Emitted recover appr step parentHash need P h list ∧ list ≠ []) ∧
+    ((poll recover appr iterOrder step parentHash need bb enum).2 = .panic → need < 0 ∧ ∃ a, appr a = true) := by
   induction enum generalizing bb with
-  | nil => exact ⟨hbb, by intro h list hh; simp [poll] at hh⟩
+  | nil => exact ⟨hbb, (by intro h list hh; cases hh), (by intro hh; cases hh)⟩
   | cons v t ih =>
     have hv := visit_spec recover appr iterOrder step parentHash need P hperm bb v (hP v List.mem_cons_self) hbb
     simp only [poll]
@@ -392,109 +428,28 @@ theorem poll_spec (hperm : ∀ l, (iterOrder l).Perm l) (enum : List (Vote σ)) 
     | mk bb' res =>
       rw [hr] at hv
       cases res with
-      | some r =>
-        refine ⟨hv.1, ?_⟩
-        intro h list hh
-        simp only [Option.some.injEq] at hh
-        exact hv.2 h list (by rw [hh])
       | none => exact ih (fun x hx => hP x (List.mem_cons_of_mem _ hx)) bb' hv.1
+      | found h0 l0 => exact ⟨hv.1, hv.2.1, hv.2.2⟩
+      | panic => exact ⟨hv.1, hv.2.1, hv.2.2⟩
 
 theorem countLoop_spec (hperm : ∀ l, (iterOrder l).Perm l) (polls : List (List (Vote σ)))
     (hP : ∀ enum ∈ polls, ∀ v ∈ enum, P v) (bb : ByBlock σ)
-    (hbb : BBInv recover appr step parentHash P bb) (h : Nat) (list : List (Vote σ))
-    (hres : countLoop recover appr iterOrder step parentHash need bb polls = some (h, list)) :
-    Emitted recover appr step parentHash need P h list := by
+    (hbb : BBInv recover appr step parentHash P bb) :
+    (∀ h list, countLoop recover appr iterOrder step parentHash need bb polls = .found h list →
+      Emitted recover appr step parentHash need P h list ∧ list ≠ []) ∧
+    (countLoop recover appr iterOrder step parentHash need bb polls = .panic → need < 0 ∧ ∃ a, appr a = true) := by
   induction polls generalizing bb with
-  | nil => simp [countLoop] at hres
+  | nil => exact ⟨(by intro h list hh; cases hh), (by intro hh; cases hh)⟩
   | cons enum more ih =>
     have hp := poll_spec recover appr iterOrder step parentHash need P hperm enum (hP enum List.mem_cons_self) bb hbb
-    simp only [countLoop] at hres
+    simp only [countLoop]
     cases hr : poll recover appr iterOrder step parentHash need bb enum with
     | mk bb' res =>
-      rw [hr] at hp hres
+      rw [hr] at hp
       cases res with
-      | some r =>
-        simp only [Option.some.injEq] at hres
-        exact hp.2 h list (by rw [hres])
-      | none => exact ih (fun e he => hP e (List.mem_cons_of_mem _ he)) bb' hp.1 hres
-
-theorem takeUntil_ne_nil {α : Type} (need : Int) (l acc : List α) (h : l ≠ [] ∨ acc ≠ []) :
-    takeUntil need l acc ≠ [] := by
-  induction l generalizing acc with
-  | nil => rcases h with h | h; exact absurd rfl h; simpa [takeUntil] using h
-  | cons x t ih =>
-    simp only [takeUntil]
-    by_cases hc : ((acc ++ [x]).length : Int) ≥ need
-    · rw [if_pos hc]; simp
-    · rw [if_neg hc]; exact ih _ (Or.inr (by simp))
-
-theorem assocSet_ne_nil {β : Type} (k : Nat) (v : β) (l : List (Nat × β)) : assocSet k v l ≠ [] := by
-  cases l with
-  | nil => simp [assocSet]
-  | cons q t =>
-    obtain ⟨k', v'⟩ := q
-    simp only [assocSet]
-    by_cases e : k' = k <;> simp [e]
-
-theorem visit_nonempty (hperm : ∀ l, (iterOrder l).Perm l) (bb : ByBlock σ) (v : Vote σ) (h : Nat)
-    (list : List (Vote σ)) (hres : (visit recover appr iterOrder step parentHash need bb v).2 = some (h, list)) :
-    list ≠ [] := by
-  simp only [visit] at hres
-  split at hres
-  · cases hres
-  · split at hres
-    · cases hres
-    · split at hres
-      · cases hres
-      · split at hres
-        · cases hres
-        · split at hres
-          · split at hres
-            · simp only [Option.some.injEq, Prod.mk.injEq] at hres
-              rw [← hres.2]
-              apply takeUntil_ne_nil
-              left
-              intro hnil
-              have hlen := (hperm (assocSet (voterAddr recover v) v ((bb.lookup v.voted).getD []))).length_eq
-              have h0 : (iterOrder (assocSet (voterAddr recover v) v ((bb.lookup v.voted).getD []))).length = 0 := by
-                have := congrArg List.length hnil
-                simpa using this
-              rw [h0] at hlen
-              exact assocSet_ne_nil _ _ _ (List.length_eq_zero_iff.mp hlen.symm)
-            · cases hres
-          · cases hres
-
-theorem poll_nonempty (hperm : ∀ l, (iterOrder l).Perm l) (enum : List (Vote σ)) (bb : ByBlock σ) (h : Nat)
-    (list : List (Vote σ)) (hres : (poll recover appr iterOrder step parentHash need bb enum).2 = some (h, list)) :
-    list ≠ [] := by
-  induction enum generalizing bb with
-  | nil => simp [poll] at hres
-  | cons v t ih =>
-    simp only [poll] at hres
-    cases hr : visit recover appr iterOrder step parentHash need bb v with
-    | mk bb' res =>
-      rw [hr] at hres
-      cases res with
-      | some r =>
-        simp only [Option.some.injEq] at hres
-        exact visit_nonempty recover appr iterOrder step parentHash need hperm bb v h list (by rw [hr, hres])
-      | none => exact ih bb' hres
-
-theorem countLoop_nonempty (hperm : ∀ l, (iterOrder l).Perm l) (polls : List (List (Vote σ))) (bb : ByBlock σ)
-    (h : Nat) (list : List (Vote σ))
-    (hres : countLoop recover appr iterOrder step parentHash need bb polls = some (h, list)) : list ≠ [] := by
-  induction polls generalizing bb with
-  | nil => simp [countLoop] at hres
-  | cons enum more ih =>
-    simp only [countLoop] at hres
-    cases hr : poll recover appr iterOrder step parentHash need bb enum with
-    | mk bb' res =>
-      rw [hr] at hres
-      cases res with
-      | some r =>
-        simp only [Option.some.injEq] at hres
-        exact poll_nonempty recover appr iterOrder step parentHash need hperm enum bb h list (by rw [hr, hres])
-      | none => exact ih bb' hres
+      | none => exact ih (fun e he => hP e (List.mem_cons_of_mem _ he)) bb' hp.1
+      | found h0 l0 => exact ⟨hp.2.1, hp.2.2⟩
+      | panic => exact ⟨hp.2.1, hp.2.2⟩
 
 end Count
 
